@@ -125,6 +125,9 @@ def op_params(rng, tier):
             out.append(dict(n=n, total=t, smart=s, plant=pl, knuth=kn))
     out.append(dict(n=3, total=False, smart=False, plant=False, knuth=5))   # any other value: plain
     out.append(dict(n=40, total=False, smart=False, plant=False, knuth=0, large=True))
+    if tier != 'quick':
+        out.append(dict(n=55, total=True, smart=False, plant=False, knuth=3, large=True))
+        out.append(dict(n=70, total=False, smart=True, plant=True, knuth=0, large=True))
     for (t, s, pl, kn) in rng.sample(FLAGS, 6 if tier == 'quick' else 16):
         out.append(dict(n=rng.randint(15, 28), total=t, smart=s, plant=pl, knuth=kn, large=True))
     return out
@@ -243,7 +246,7 @@ def gop_params(rng, tier):
     top = 4 if tier == 'quick' else 5
     for n in range(0, top + 1):
         for edges in subsets_of_pairs(n):
-            flags = FLAGS if n <= 3 else rng.sample(FLAGS, 8 if tier == 'quick' else 5)
+            flags = FLAGS if n <= 3 else rng.sample(FLAGS, 8 if (tier == 'quick' or n == 4) else 6)
             for (t, s, pl, kn) in flags:
                 out.append(dict(n=n, edges=edges, total=t, smart=s, plant=pl, knuth=kn))
     for _ in range(8 if tier == 'quick' else 40):
@@ -355,7 +358,7 @@ def sstone_params(rng, tier):
         for R in range(0, 3):
             cells = [(v, j) for v in range(1, n + 1) for j in range(1, R + 1)]
             if n == 4 and R == 2:
-                masks = [rng.randrange(1 << len(cells)) for _ in range(24)]
+                masks = [rng.randrange(1 << len(cells)) for _ in range(96)]
             else:
                 masks = range(1 << len(cells))
             for bits in masks:
@@ -510,6 +513,9 @@ def ram_params(rng, tier):
     out = [dict(s=s, k=k, N=N) for s in range(1, 5) for k in range(1, 5) for N in range(0, top + 1)]
     out.append(dict(s=4, k=4, N=18, large=True))
     out.append(dict(s=3, k=5, N=14, large=True))
+    if tier != 'quick':
+        out.append(dict(s=5, k=5, N=22, large=True))
+        out.append(dict(s=2, k=7, N=25, large=True))
     return out
 
 
